@@ -168,7 +168,40 @@ fn thresholds(cfg: &Cfg, rep: &mut Report) {
                             rep.check("res", cur != t2 as u32 || t2 == t, &format!("C14/res/{pname}/set_threshold/refused-value-stored"), || format!("refused set_threshold({t2}) but threshold is now {cur}"));
                         }
                     }
-                    // a weight change that would make the threshold unreachable is refused (weighted)
+                    // weight edits (weighted): refused when the new total overflows u32 or no longer reaches the
+                    // threshold; after an accepted edit every subset is re-evaluated against the new map
+                    if weighted && total <= u32::MAX as u64 {
+                        let mut wts: Vec<u64> = weights.iter().map(|x| *x as u64).collect();
+                        let cur_t: u32 = invoke(e, &policy, "get_threshold", args!(e, rule_id, account.clone())).expect("get_threshold");
+                        for (si, nw) in [(n - 1, u32::MAX), (0usize, weights[0].saturating_add(7)), (n / 2, u32::MAX - 1), (0usize, 1u32)] {
+                            let mut cand = wts.clone();
+                            cand[si] = nw as u64;
+                            let nt: u64 = cand.iter().sum();
+                            let want = nt <= u32::MAX as u64 && (cur_t as u64) <= nt;
+                            let got = call(&w, &policy, &account, "set_signer_weight", args!(e, signers[si].clone(), nw, r.clone(), account.clone()), true);
+                            rep.evaluations += 1;
+                            rep.case(format!("weighted/set_signer_weight/{}/{}", if nt > u32::MAX as u64 { "overflowing-total" } else if (cur_t as u64) > nt { "unreachable" } else { "fine" }, tag(&got)));
+                            rep.check("ref", got.is_ok() == want, "C14/ref/weighted/set_signer_weight/outcome", || {
+                                format!("set weight of signer {si} to {nw}: new total {nt}, threshold {cur_t}: expected ok={want}, got {got:?}")
+                            });
+                            if got.is_ok() {
+                                wts = cand;
+                            }
+                            for mask in 0u32..(1 << n) {
+                                let sub: Vec<Signer> = (0..n).filter(|i| mask >> i & 1 == 1).map(|i| signers[i].clone()).collect();
+                                let have: u64 = (0..n).filter(|i| mask >> i & 1 == 1).map(|i| wts[i]).sum();
+                                let ce: Result<bool, Fail> = invoke(e, &policy, "can_enforce", args!(e, ctx.clone(), signers_vec(e, &sub), r.clone(), account.clone()));
+                                rep.evaluations += 1;
+                                rep.check("ref", ce == Ok(have >= cur_t as u64), "C14/ref/weighted/can_enforce-after-weight-edit", || {
+                                    format!("weights {wts:?} threshold {cur_t} subset {mask:b} (have {have}): can_enforce = {ce:?}")
+                                });
+                            }
+                        }
+                        // restore the original weight map for the remaining steps
+                        for i in 0..n {
+                            let _ = call(&w, &policy, &account, "set_signer_weight", args!(e, signers[i].clone(), weights[i], r.clone(), account.clone()), true);
+                        }
+                    }
                     if weighted && total <= u32::MAX as u64 {
                         let cur: u32 = invoke(e, &policy, "get_threshold", args!(e, rule_id, account.clone())).expect("get_threshold");
                         let new_total = total - weights[0] as u64;
